@@ -43,6 +43,11 @@ Create(by, u, a, pool, able) ==
     /\ inpool' = [inpool EXCEPT ![u] = TRUE]
     /\ UNCHANGED <<tok, cst, starts, inYield, expect, rin>>
 \* the function is invoked exactly once, with the argument it was given
+\* C02: a ULT that performed a context-switching primitive comes back with the callee-saved
+\* registers, the MXCSR control bits and the x87 control word it had when it called it; a ULT
+\* function is entered on a 16-byte aligned stack
+CtxKept(u, regs, mxcsr, x87) == regs = 1 /\ mxcsr = 1 /\ x87 = 1
+Aligned(sp16) == sp16 = 0
 Start(u, a, n) == /\ st[u] = "created" /\ a = arg[u] /\ n = 1
                   /\ st' = [st EXCEPT ![u] = "running"] /\ starts' = [starts EXCEPT ![u] = @ + 1]
                   /\ inpool' = [inpool EXCEPT ![u] = FALSE]
